@@ -433,7 +433,7 @@ func run(c *lib.Ctx) {
 	}
 	c.Note("part_a", fmt.Sprintf("%d list subsets (size <= %d) in every disjoint allowed/disallowed combination x %d requests (6 protocols x %d addresses x ClientID labels)", len(subs), max, len(reqs), len(addrs)))
 	// Part B: blocked hosts.
-	hostSets := [][]string{{"bad.test"}, {"||bad.test^"}, {"*.bad.test"}, {"|.^"}, {"bad.test$dnstype=AAAA"}, {"||BAD.test^"}, {"||bad.test^", "other.test"}, {"@@||sub.bad.test^", "||bad.test^"}}
+	hostSets := [][]string{{"bad.test"}, {"||bad.test^"}, {"*.bad.test"}, {"|.^"}, {"bad.test$dnstype=AAAA"}, {"||BAD.test^"}, {"||bad.test^", "other.test"}, {"@@||sub.bad.test^", "||bad.test^"}, {"Bad.Test"}, {"Sub.BAD.test", "Other.test"}}
 	namesB := []string{"bad.test", "sub.bad.test", "BAD.Test", "xbad.test", "test", "other.test"}
 	for _, hs := range hostSets {
 		for _, cl := range []config{{}, {Disallowed: []string{"9.9.9.9"}}, {Allowed: []string{"1.2.3.0/24", "cid-a"}}} {
